@@ -25,7 +25,7 @@ _claim("C01", "Completeness is a theorem about the model (C01_completeness, clos
        'Coq proof (completeness of the code-shaped prover against the code-shaped verifier, all sizes) + coordinate-level model/implementation correspondence over a free-module group', "5/C01")
 _claim("C02", 'C02_verifier_equiv (closed under the global context): for ARBITRARY proof elements, statement and weight, the multiscalar product the optimised verifier evaluates (s-vector recurrence, running powers, doubling construction of d and its sum, closed-form geometric sum, batched inverses) equals weight * (right-hand side - left-hand side) of the textbook Bulletproofs+ verification equation written without optimisation (Model/RangeSpec.v), for every bit length, aggregation, round count and extension degree; hence it vanishes iff the textbook verifier accepts; C02_accepted_single_means_textbook_accepts carries this to the top of the executed model (a one-member chunk accepted by verify_chunk under a non-zero weight means the textbook verifier accepts the decoded pair). Every scalar the implementation feeds to its final multiscalar check is compared with the model on honest, mutated and structurally odd proofs. Knowledge soundness of the textbook protocol is trusted, not proved.', _COMMON_NOTE,
        'Coq proof (optimised verifier = textbook verifier for arbitrary proofs, all sizes) + scalar-by-scalar correspondence of the final multiscalar product', "5/C02")
-_claim("C03", "C03_batch_is_weighted_residuals (closed under the global context): for members of any mixture of aggregation factors sharing the owner's generator table (any capacity), arbitrary proofs and weights, the single multiscalar product a batch ends with equals sum_p w_p * textbook residual_p; hence it vanishes when every member satisfies the textbook equation (C03_batch_accepts_if_all_accept), and a member with a non-zero residual survives for at most one value of its weight (C08_bad_weight_unique; the random-oracle step after that is NOT a theorem). Chunking (cover, order, size), shape refusals and result alignment are theorems about the model of the repaired code. Differential runs: batch verdict vs conjunction of singleton verdicts vs model for sizes around every chunk boundary, eight kinds of invalid member at first/last/boundary/random positions, permutations, mixed capacities, per-member contexts. Deterministic \"only if\" on the executed model: in a chunk whose members are all made by the code-shaped prover except one arbitrary member, acceptance (non-zero weight) means the textbook verifier accepts that member (C03_one_unknown_member_among_honest).", _COMMON_NOTE,
+_claim("C03", "C03_batch_is_weighted_residuals (closed under the global context): for members of any mixture of aggregation factors sharing the owner's generator table (any capacity), arbitrary proofs and weights, the single multiscalar product a batch ends with equals sum_p w_p * textbook residual_p; hence it vanishes when every member satisfies the textbook equation (C03_batch_accepts_if_all_accept), and a member with a non-zero residual survives for at most one value of its weight (C08_bad_weight_unique; the random-oracle step after that is NOT a theorem). Chunking (cover, order, size), shape refusals and result alignment are theorems about the model of the repaired code. Differential runs: batch verdict vs conjunction of singleton verdicts vs model for sizes around every chunk boundary, eight kinds of invalid member at first/last/boundary/random positions, permutations, mixed capacities, per-member contexts. Deterministic \"only if\" on the executed model: in a chunk whose members are all made by the code-shaped prover except one arbitrary member, acceptance (non-zero weight) means the textbook verifier accepts that member (C03_one_unknown_member_among_honest); C03_embedding_sound: an arbitrary member that passes its own guards contributes w * residual to the product of a chunk of prover-made members, so its verdict inside such a batch is its verdict alone (the soundness of the checks' context-embedding oracle on the model).", _COMMON_NOTE,
        'Coq proof (batch product = weighted sum of textbook residuals; chunk cover; guards) + relational differential testing of batch vs singletons + model correspondence', "5/C03")
 _claim("C04", "The list of transcript operations of prover and verifier is a Gallina function of statement and proof. Proved: restricted to the operations that determine a challenge, the prover's list (any witness, seed or not) equals the verifier's up to the final challenge (C04_prover_verifier_same_challenge_inputs), one errs on an identity point exactly when the other does, equal logs force equal statement data and proof points (C04_log_injective), every challenge's input extends the previous one. The list is compared operation by operation with the instrumented merlin log, and for every single-datum perturbation (also inside multi-chunk and mixed-aggregation batches) the recorded challenge bytes must differ from that datum on and agree before it. Merlin as a random oracle is trusted.", _COMMON_NOTE,
        'Coq proof (same challenge inputs for prover and verifier; injectivity of the operation list) + log correspondence + pairwise challenge-dependency runs', "5/C04")
